@@ -604,6 +604,46 @@ func checkC09Errors(r *Run, vm *VisitorModel) {
 	pc := decls["parseCypher"]
 	nret, okret := 0, 0
 	pcInl := inlineFunc(vm.pkg, pc, 2)
+	// joinsErrorsOf: e is errors.Join(<ctx>.Errors...), or a call of a Context method on <ctx> whose whole body returns that
+	var joinsErrorsOf func(e ast.Expr, isCtx func(*ast.Ident) bool) bool
+	joinsErrorsOf = func(e ast.Expr, isCtx func(*ast.Ident) bool) bool {
+		call, ok := ast.Unparen(e).(*ast.CallExpr)
+		if !ok {
+			return false
+		}
+		fn := calleeOf(info, call)
+		if fn == nil {
+			return false
+		}
+		if funcFullName(fn) == "errors.Join" && call.Ellipsis.IsValid() && len(call.Args) == 1 {
+			if sel, ok := call.Args[0].(*ast.SelectorExpr); ok {
+				if s := info.Selections[sel]; s != nil && s.Obj() == errorsField {
+					if id, ok := ast.Unparen(sel.X).(*ast.Ident); ok && isCtx(id) {
+						return true
+					}
+				}
+			}
+			return false
+		}
+		sel, ok := ast.Unparen(call.Fun).(*ast.SelectorExpr)
+		if !ok || len(call.Args) != 0 || fn.Pkg() != fe.Types {
+			return false
+		}
+		recvID, ok := ast.Unparen(sel.X).(*ast.Ident)
+		if !ok || !isCtx(recvID) {
+			return false
+		}
+		md := decls[declKeyOf(fn)]
+		if md == nil || md.Body == nil || len(md.Body.List) != 1 || md.Recv == nil || len(md.Recv.List) != 1 || len(md.Recv.List[0].Names) != 1 {
+			return false
+		}
+		ret, ok := md.Body.List[0].(*ast.ReturnStmt)
+		if !ok || len(ret.Results) != 1 {
+			return false
+		}
+		mrecv := info.Defs[md.Recv.List[0].Names[0]]
+		return joinsErrorsOf(ret.Results[0], func(id *ast.Ident) bool { return info.Uses[id] == mrecv })
+	}
 	var pcCtx types.Object
 	if pc.Type.Params != nil && len(pc.Type.Params.List) > 0 && len(pc.Type.Params.List[0].Names) > 0 {
 		pcCtx = info.Defs[pc.Type.Params.List[0].Names[0]]
@@ -614,18 +654,8 @@ func checkC09Errors(r *Run, vm *VisitorModel) {
 		}
 		if rs, ok := n.(*ast.ReturnStmt); ok {
 			nret++
-			if len(rs.Results) == 2 {
-				if call, ok := ast.Unparen(rs.Results[1]).(*ast.CallExpr); ok && call.Ellipsis.IsValid() && len(call.Args) == 1 {
-					if fn := calleeOf(info, call); fn != nil && funcFullName(fn) == "errors.Join" {
-						if sel, ok := call.Args[0].(*ast.SelectorExpr); ok {
-							if s := info.Selections[sel]; s != nil && s.Obj() == errorsField {
-								if id, ok := ast.Unparen(sel.X).(*ast.Ident); ok && pcInl.Obj(id) == pcCtx {
-									okret++
-								}
-							}
-						}
-					}
-				}
+			if len(rs.Results) == 2 && joinsErrorsOf(rs.Results[1], func(id *ast.Ident) bool { return pcInl.Obj(id) == pcCtx }) {
+				okret++
 			}
 		}
 		return true
